@@ -202,6 +202,216 @@ class FnHarness(Harness):
             from luna.gateware.usb.usb2.packet import USBDataPacketCRC
             self.obj = USBDataPacketCRC()
         elif tag == "usb3_crc16":
+            from luna.gateware.usb.usb3.link.crc import HeaderPacketCRC
+            self.obj = HeaderPacketCRC()
+        else:
+            from luna.gateware.usb.usb3.link.crc import DataPacketPayloadCRC
+            self.obj = DataPacketPayloadCRC()
+        self.st = self.inp("st", self.width)
+        self.fd = self.inp("fd", max(n for _, _, n in self.parts))
+        self.v_fn = {a: self.viol(a) for a, _, _ in self.parts}
+        self.c_fn = {a: self.cover(a) for a, _, _ in self.parts}
+
+    def elaborate(self, platform):
+        m = Module()
+        alive = Signal(name="alive")
+        m.d[self.domains[0]] += alive.eq(~alive)
+        for a, meth, nbits in self.parts:
+            ref = ref_step(m, f"ref_{a}", self.st, self.fd, nbits, self.taps)
+            got = Signal(self.width, name=f"got_{a}")
+            m.d.comb += got.eq(getattr(self.obj, meth)(self.st, self.fd[0:nbits]))
+            self.obs(f"got_{a}", got), self.obs(f"ref_{a}", ref)
+            m.d.comb += [self.v_fn[a].eq(got != ref),
+                         self.c_fn[a].eq((self.st != 0) & (self.fd[0:nbits] != 0) & (got != self.st) & (got != 0))]
+        return m
+
+
+class Crc16Usb2Harness(Harness):
+    domains = ("usb",)
+
+    def __init__(self):
+        super().__init__()
+        from luna.gateware.usb.usb2.packet import USBDataPacketCRC, DataCRCInterface
+        self.dut = USBDataPacketCRC()
+        self.itf = DataCRCInterface()
+        self.dut.add_interface(self.itf)
+        self.inp("start", signal=self.itf.start)
+        self.inp("rx_data", signal=self.dut.rx_data)
+        self.inp("rx_valid", signal=self.dut.rx_valid)
+        self.inp("tx_data", signal=self.dut.tx_data)
+        self.inp("tx_valid", signal=self.dut.tx_valid)
+        self.v_out = self.viol("usb2_crc16_output")
+        self.c_out = self.cover("usb2_crc16_output")
+        self.c_clear = self.cover("usb2_crc16_restart")
+        self.a_half = self.assume("half_duplex")
+        self.restrictions.append("dut.clear is an unused attribute of USBDataPacketCRC (never read by elaborate)")
+
+    def elaborate(self, platform):
+        m = Module()
+        m.submodules.dut = dut = self.dut
+        ghost = self.ghost = Signal(16, init=0xFFFF, name="ghost")
+        count = Signal(3, name="ghost_count")
+        self.obs("ghost", ghost)
+        data = Signal(8, name="ghost_data")
+        m.d.comb += data.eq(Mux(dut.rx_valid, dut.rx_data, dut.tx_data))
+        nxt = ref_step(m, "ghost_next", ghost, data, 8, CRC16_USB2_TAPS)
+        with m.If(self.itf.start):
+            m.d.usb += [ghost.eq(0xFFFF), count.eq(0)]
+        with m.Elif(dut.rx_valid | dut.tx_valid):
+            m.d.usb += ghost.eq(nxt)
+            with m.If(count != 7):
+                m.d.usb += count.eq(count + 1)
+        expected = ref_wire(m, "expected_crc", ghost)
+        seen2 = Signal(name="seen2")
+        with m.If(count >= 2):
+            m.d.usb += seen2.eq(1)
+        m.d.comb += [
+            self.a_half.eq(~(dut.rx_valid & dut.tx_valid)),
+            self.v_out.eq(self.itf.crc != expected),
+            self.c_out.eq((count >= 3) & (self.itf.crc != 0)),
+            self.c_clear.eq(seen2 & (count == 1)),
+        ]
+        return m
+
+
+class HeaderCrcHarness(Harness):
+    domains = ("ss",)
+
+    def __init__(self):
+        super().__init__()
+        from luna.gateware.usb.usb3.link.crc import HeaderPacketCRC
+        self.dut = HeaderPacketCRC()
+        self.inp("clear", signal=self.dut.clear)
+        self.inp("advance_crc", signal=self.dut.advance_crc)
+        self.inp("data_input", signal=self.dut.data_input)
+        self.v_out = self.viol("usb3_crc16_output")
+        self.c_out = self.cover("usb3_crc16_output")
+        self.c_clear = self.cover("usb3_crc16_restart")
+
+    def elaborate(self, platform):
+        m = Module()
+        m.submodules.dut = dut = self.dut
+        ghost = self.ghost = Signal(16, init=0xFFFF, name="ghost")
+        count = Signal(3, name="ghost_count")
+        self.obs("ghost", ghost)
+        nxt = ref_step(m, "ghost_next", ghost, dut.data_input, 32, CRC16_USB3_TAPS)
+        with m.If(dut.clear):
+            m.d.ss += [ghost.eq(0xFFFF), count.eq(0)]
+        with m.Elif(dut.advance_crc):
+            m.d.ss += ghost.eq(nxt)
+            with m.If(count != 7):
+                m.d.ss += count.eq(count + 1)
+        expected = ref_wire(m, "expected_crc", ghost)
+        seen2 = Signal(name="seen2")
+        with m.If(count >= 2):
+            m.d.ss += seen2.eq(1)
+        m.d.comb += [
+            self.v_out.eq(dut.crc != expected),
+            self.c_out.eq((count >= 2) & (dut.crc != 0)),
+            self.c_clear.eq(seen2 & (count == 1)),
+        ]
+        return m
+
+
+class PayloadCrcHarness(Harness):
+    domains = ("ss",)
+    PARTS = (("full", 32), ("3B", 24), ("2B", 16), ("1B", 8))
+
+    def __init__(self):
+        super().__init__()
+        from luna.gateware.usb.usb3.link.crc import DataPacketPayloadCRC
+        self.dut = d = DataPacketPayloadCRC()
+        self.inp("clear", signal=d.clear)
+        self.inp("advance_word", signal=d.advance_word)
+        self.inp("advance_3B", signal=d.advance_3B)
+        self.inp("advance_2B", signal=d.advance_2B)
+        self.inp("advance_1B", signal=d.advance_1B)
+        self.inp("data_input", signal=d.data_input)
+        self.v_out = self.viol("crc32_output")
+        self.c_out = self.cover("crc32_output")
+        self.v_next = {p: self.viol(f"crc32_next_{p}") for p, _ in self.PARTS[1:]}
+        self.c_part = {p: self.cover(f"crc32_advance_{p}") for p, _ in self.PARTS[1:]}
+        self.c_clear = self.cover("crc32_restart")
+        self.a_onehot = self.assume("one_advance")
+
+    def stimulus(self, rng, t, consts):
+        d = super().stimulus(rng, t, consts)
+        sel = rng.randrange(6)
+        for i, n in enumerate(("advance_word", "advance_3B", "advance_2B", "advance_1B")):
+            d[n] = int(sel == i)
+        d["clear"] = int(rng.random() < 0.1)
+        return d
+
+    def elaborate(self, platform):
+        m = Module()
+        m.submodules.dut = dut = self.dut
+        ghost = self.ghost = Signal(32, init=0xFFFFFFFF, name="ghost")
+        count = Signal(3, name="ghost_count")
+        self.obs("ghost", ghost)
+        nxt = {p: ref_step(m, f"ghost_next_{p}", ghost, dut.data_input, n, CRC32_TAPS) for p, n in self.PARTS}
+        adv = dict(full=dut.advance_word, **{"3B": dut.advance_3B, "2B": dut.advance_2B, "1B": dut.advance_1B})
+        with m.If(dut.clear):
+            m.d.ss += [ghost.eq(0xFFFFFFFF), count.eq(0)]
+        with m.Elif(Cat(*adv.values()).any()):
+            with m.If(count != 7):
+                m.d.ss += count.eq(count + 1)
+            for p, _ in self.PARTS:
+                with m.If(adv[p]):
+                    m.d.ss += ghost.eq(nxt[p])
+        expected = ref_wire(m, "expected_crc", ghost)
+        seen2 = Signal(name="seen2")
+        with m.If(count >= 2):
+            m.d.ss += seen2.eq(1)
+        nadv = sum(a for a in adv.values())
+        m.d.comb += [
+            self.a_onehot.eq(nadv <= 1),
+            self.v_out.eq(dut.crc != expected),
+            self.c_out.eq((count >= 2) & (dut.crc != 0)),
+            self.c_clear.eq(seen2 & (count == 1)),
+        ]
+        outs = {"3B": dut.next_crc_3B, "2B": dut.next_crc_2B, "1B": dut.next_crc_1B}
+        for p, _ in self.PARTS[1:]:
+            exp = ref_wire(m, f"expected_next_{p}", nxt[p])
+            was = Signal(name=f"was_adv_{p}")
+            m.d.ss += was.eq(adv[p] & ~dut.clear & (count >= 1))
+            m.d.comb += [self.v_next[p].eq(outs[p] != exp),
+                         self.c_part[p].eq(was)]
+        return m
+
+
+def _at0(v):
+    return lambda t: v if t == 0 else None
+
+
+def _inv_output(ts, frame, h):
+    """induction hypothesis: the wrapper's CRC output agrees with the ghost (the output mapping is a bijection of
+    the register, so this is 'register == ghost' without naming the internal register)"""
+    out = h.itf.crc if hasattr(h, "itf") else h.dut.crc
+    n = len(out)
+    g = frame.sig(h.ghost)
+    exp = z3.Concat(*[~z3.Extract(i, i, g) for i in range(n)])      # bit k of exp = ~g[n-1-k]
+    return [frame.sig(out) == exp], ["crc output == complemented reflected ghost"]
+
+
+def queries(tier):
+    validate_reference()
+    thorough = tier != "quick"
+    qs = [Query("comb_crc5", Crc5Harness, 1, split=False,
+                desc="COMB: both CRC5 functions vs 11 serial steps, all 2^11 inputs; reference vs published vectors"),
+          Query("cosim_crc5", Crc5Harness, 0, kind="cosim", cosim_cycles=200 if not thorough else 1000)]
+    wdesc = "wrapper from reset: outputs = complemented, reflected serial CRC of everything advanced since the " \
+            "last clear; "
+    for tag, f in (("usb2_crc16", Crc16Usb2Harness), ("usb3_crc16", HeaderCrcHarness), ("usb3_crc32", PayloadCrcHarness)):
+        ff = (lambda tag=tag: FnHarness(tag))
+        qs.append(Query(f"comb_{tag}", ff, 1, timeout=600, split=False,
+                        desc="COMB: step function(s) on a free register state and free data vs bit-serial steps "
+                             "(all states x all inputs)"))
+        qs.append(Query(f"cosim_comb_{tag}", ff, 0, kind="cosim",
+                        cosim_cycles=(8 if tag == "usb3_crc32" else 30) if not thorough else 100))
+        if tag == "usb2_crc16":
+            qs.append(Query(f"bmc_{tag}", f, 10 if thorough else 6, timeout=600, split=False,
+                            desc=wdesc + "controls and data free every cycle"))
+        elif tag == "usb3_crc16":
             # deeper free unrollings of the 32-bit-per-step XOR networks do not normalise in the solver (K=3
             # unknown after 60 s); the induction query below covers every deeper history
             words = [0x00000280, 0x00010004, 0x00000000]
@@ -211,7 +421,8 @@ class FnHarness(Harness):
             if thorough:
                 qs.append(Query(f"bmc_{tag}", f, 2, covers=[], timeout=600,
                                 desc=wdesc + "base case of the induction + one free step, controls and data free"))
-            qs.append(Query(f"cover_{tag}", f, 6, asserts=[], timeout=600, desc="reachability twins of the wrapper assertions"))
+            qs.append(Query(f"cover_{tag}", f, 6, asserts=[], timeout=600, hints={"*": {"data_input": 0x520013FE}},
+                            desc="reachability twins of the wrapper assertions (witness search hinted to a fixed data word)"))
         else:
             qs.append(Query(f"bmc_{tag}_base", f, 1, covers=[], timeout=600, split=False,
                             asserts=None if thorough else ["crc32_output"],
@@ -232,7 +443,8 @@ class FnHarness(Harness):
                 for cn, layer in cases.items():
                     qs.append(Query(f"bmc_{tag}_{cn}", f, 2, asserts=["crc32_output"], covers=[], layer=layer, timeout=600,
                                     desc=wdesc + f"one step from reset with first-cycle controls = case '{cn}', data free"))
-            qs.append(Query(f"cover_{tag}", f, 6, asserts=[], timeout=600, desc="reachability twins of the wrapper assertions"))
+            qs.append(Query(f"cover_{tag}", f, 6, asserts=[], timeout=600, hints={"*": {"data_input": 0x520013FE}},
+                            desc="reachability twins of the wrapper assertions (witness search hinted to a fixed data word)"))
         qs.append(Query(f"ind_{tag}", f, 1, kind="ind", invariants=_inv_output, timeout=600,
                         desc="induction step from an arbitrary register value (ghost = register): every output correct "
                              "now and the correspondence holds after any one step with free controls and data "
